@@ -216,7 +216,7 @@ def sum_case(rng, structured):
     alg = rng.choice(SUM_ALGS)
     if structured:
         K = rng.choice([1, 2, 3, 10, 100, 1000, 10000])
-        d = rng.choice([1e-6, 1e-4, 0.01, 0.1, 0.5, 0.9, 0.99, 0.999])
+        d = rng.choice([1e-6, 1e-4, 0.01, 0.1, 0.5, 0.9, 0.99, 0.999, 1e-12, 1e-9, 1 - 1e-9])
     else:
         K = int(round(10 ** rng.uniform(0, 4)))
         d = min(0.999, 10 ** rng.uniform(-6, 0))
@@ -297,11 +297,72 @@ def monitor_case(rng, fixed_index=None):
             "seed": rng.randint(0, 10 ** 6), "max_rounds": 300 if alg == "Auer" else 30}
 
 
+CTOR_ALGS = {
+    # stubs.build name: (schedule term, union-sum key, method)
+    "PaVeBa": ("paveba", "paveba", "compute_radius"),
+    "PaVeBaGP-IH": ("pavebagp", "pavebagp_rect", "compute_alpha"),
+    "PaVeBaGP-DE": ("pavebagp", "pavebagp_ell", "compute_alpha"),
+    "PaVeBaPartialGP-rect": ("partialgp", "partialgp_rect", "compute_alpha"),
+    "PaVeBaPartialGP-ell": ("partialgp", "partialgp_ell", "compute_alpha"),
+    "VOGP": ("vogp", "vogp", "compute_beta"),
+    "EpsilonPAL": ("epal", "epal", "compute_beta"),
+    "Auer": ("auer", "auer", "compute_beta"),
+}
+
+
+def ctor_case(rng, name=None, delta=None):
+    name = name or rng.choice(sorted(CTOR_ALGS))
+    if delta is None:
+        delta = rng.choice(D_EXTREME + D_EXTREME + [1e-6, 0.05, 0.5, 0.999, min(0.999, 10 ** rng.uniform(-14, 0))])
+    t = rng.choice([1, 2, 10, 1000, 10 ** 5])
+    if name in ("VOGP", "EpsilonPAL") and rng.random() < 0.3:
+        t = 0
+    return {"kind": "ctor", "alg": name, "K": rng.randint(1, 6), "m": rng.choice([2, 2, 3]), "delta": delta,
+            "epsilon": rng.choice([0.0, 1e-9, 0.1, 1.0]), "round": t, "noise_var": rng.choice(NV_GRID),
+            "c": rng.choice([1.0, 1.0, 32.0]), "seed": rng.randint(0, 10 ** 6)}
+
+
+def history_case(rng, k=None):
+    n = rng.choice([4097, 5000, 8193, 10000, 16384])
+    pattern = ["one", "halves", "4096+singles", "singles", "chunks"][k % 5] if k is not None \
+        else rng.choice(["one", "halves", "4096+singles", "singles", "chunks"])
+    if pattern == "singles":
+        n = min(n, 5000)
+    K = rng.randint(1, 4)
+    return {"kind": "history", "K": K, "m": rng.randint(1, 3), "design": rng.randrange(K), "n": n, "pattern": pattern,
+            "noise_var": rng.choice(NV_GRID), "track_variances": rng.random() < 0.5, "seed": rng.randint(0, 10 ** 6)}
+
+
+def long_monitor_case(rng, alg, jump, rounds):
+    """two identical designs and a tiny epsilon: never decided, both stay in S for thousands of rounds.
+    `jump` = t0 > 0: the first t0 rounds are replaced by t0 real `evaluating()` calls and `round = t0`
+    (the state of a run in which no decision was taken so far)."""
+    return {"kind": "monitor", "alg": alg, "Y": [[1, 1], [1, 1]], "W": [[1, 0], [0, 1]] if alg == "PaVeBa" else None,
+            "epsilon": 0.001, "delta": 0.05, "noise_var": 1.0 / 64, "seed": rng.randint(0, 10 ** 6),
+            "max_rounds": rounds, "jump": jump}
+
+
 def gen(ctx):
     rng = ctx.rng
     if ctx.worker == 0:
+        for name in sorted(CTOR_ALGS):
+            for d in (1e-12, 1e-9, 1 - 1e-9):
+                yield ctor_case(rng, name, d)
+        for k in range(5):
+            yield history_case(rng, k)
+        yield long_monitor_case(rng, "Auer", 4090, 12)
+        yield long_monitor_case(rng, "PaVeBa", 4090, 8)
+        if ctx.tier == "thorough":
+            yield long_monitor_case(rng, "Auer", 0, 5000)
+            yield long_monitor_case(rng, "PaVeBa", 0, 4200)
+            yield long_monitor_case(rng, "Auer", 8190, 12)
+            yield long_monitor_case(rng, "PaVeBa", 8190, 8)
         for k in range(len(MONITOR_FIXED)):
             yield monitor_case(rng, fixed_index=k)
+    for _ in range(ctx.n(24, 3000)):
+        yield ctor_case(rng)
+    for _ in range(ctx.n(3, 300)):
+        yield history_case(rng)
     for _ in range(ctx.n(4, 280)):
         yield monitor_case(rng)
     # the corner of the parameter space where the union bounds are tightest, always
@@ -501,34 +562,42 @@ def tail_terms(sum_alg, K, m, rounds, scales):
     return np.where(np.isnan(s), float(K), term)  # a NaN scale gives a NaN region: never contains the truth
 
 
+def sum_bracket(ctx, sum_alg, K, m, dsched, T):
+    """partial sum over T rounds + dyadic tail blocks of the union bound with the code's schedule computed
+    for `dsched`; returns dict(partial, lower, upper, monotone, T)."""
+    first = 0 if sum_alg in ("vogp", "epal") else 1  # value of self.round in the first round
+    rounds = np.arange(first, first + T, dtype=np.int64)
+    sc, vec = code_scales(sum_alg, K, m, dsched, rounds)
+    if not vec:
+        ctx.count("sum_scalar_fallback")
+        T = min(T, 3000)
+        rounds, sc = rounds[:T], sc[:T]
+    terms = tail_terms(sum_alg, K, m, rounds if first == 1 else rounds + 1, sc)
+    partial = float(np.sum(terms[::-1]))  # small terms first
+    # dyadic blocks beyond T: rounds index n = 1.. (n = round - first + 1)
+    ns = [T * 2 ** k for k in range(0, 45)]
+    alg = _alg_of(sum_alg)
+    bs = [real_scale(alg, K, m, dsched, n - 1 + first, 1.0, 1.0) for n in ns]
+    bt = [float(tail_terms(sum_alg, K, m, [n], [b])[0]) for n, b in zip(ns, bs)]
+    monotone = all(bt[k + 1] <= bt[k] * (1 + 1e-9) for k in range(len(bt) - 1)) and \
+        all(terms[k + 1] <= terms[k] * (1 + 1e-9) + 1e-300 for k in range(0, len(terms) - 1, max(1, len(terms) // 997)))
+    lower_tail = sum((ns[k + 1] - ns[k]) * bt[k + 1] for k in range(len(ns) - 1))
+    upper_tail = sum((ns[k + 1] - ns[k]) * bt[k] for k in range(len(ns) - 1)) + bt[-1] * ns[-1]
+    return {"partial": partial, "lower": partial + (lower_tail if monotone else 0.0), "upper": partial + upper_tail,
+            "monotone": monotone, "T": T}
+
+
 def run_sum(ctx, case):
     sum_alg, K, m, delta, T = case["alg"], case["K"], case["m"], case["delta"], case["T"]
     ctx.count("sum_" + sum_alg)
-    first = 0 if sum_alg in ("vogp", "epal") else 1  # value of self.round in the first round
     try:
-        rounds = np.arange(first, first + T, dtype=np.int64)
-        sc, vec = code_scales(sum_alg, K, m, delta, rounds)
-        if not vec:
-            ctx.count("sum_scalar_fallback")
-            T = min(T, 3000)
-            rounds, sc = rounds[:T], sc[:T]
-        terms = tail_terms(sum_alg, K, m, rounds if first == 1 else rounds + 1, sc)
-        partial = float(np.sum(terms[::-1]))  # small terms first
-        # dyadic blocks beyond T: rounds index n = 1.. (n = round - first + 1)
-        ns = [T * 2 ** k for k in range(0, 45)]
-        alg = _alg_of(sum_alg)
-        bs = [real_scale(alg, K, m, delta, n - 1 + first, 1.0, 1.0) for n in ns]
-        bt = [float(tail_terms(sum_alg, K, m, [n], [b])[0]) for n, b in zip(ns, bs)]
+        b = sum_bracket(ctx, sum_alg, K, m, delta, T)
     except Exception as e:
         ctx.violation(f"sum-crash:{sum_alg}:" + core.exc_key(e),
                       f"{sum_alg}: the real schedule method raised {type(e).__name__}: {e}", case)
         ctx.case_done(case, True)
         return
-    monotone = all(bt[k + 1] <= bt[k] * (1 + 1e-9) for k in range(len(bt) - 1)) and \
-        all(terms[k + 1] <= terms[k] * (1 + 1e-9) + 1e-300 for k in range(0, len(terms) - 1, max(1, len(terms) // 997)))
-    lower_tail = sum((ns[k + 1] - ns[k]) * bt[k + 1] for k in range(len(ns) - 1))
-    upper_tail = sum((ns[k + 1] - ns[k]) * bt[k] for k in range(len(ns) - 1)) + bt[-1] * ns[-1]
-    lower, upper = partial + (lower_tail if monotone else 0.0), partial + upper_tail
+    partial, lower, upper, monotone, T = b["partial"], b["lower"], b["upper"], b["monotone"], b["T"]
     ratio = upper / delta
     ctx.count("sum_ratio_%s" % ("<1e-3" if ratio < 1e-3 else "<0.1" if ratio < 0.1 else "<0.5" if ratio < 0.5
                                 else "<=1" if ratio <= 1 else ">1"))
@@ -547,6 +616,139 @@ def run_sum(ctx, case):
         ctx.infos[:] = [s for s in ctx.infos if not s.startswith(f"worst sum/delta {sum_alg}:")]
         ctx.infos.append(f"worst sum/delta {sum_alg}: {ratio:.4g} at K={K} m={m} delta={delta}")
     ctx.case_done(case, partial > 0, canon=[sum_alg, K, m, delta])
+
+
+# ------------------------------------------------------------------------------------- ctor
+def run_ctor(ctx, case):
+    from harness import stubs
+
+    name = case["alg"]
+    sched_key, sum_key, meth = CTOR_ALGS[name]
+    K, m, delta, eps, t, nv, c = (case["K"], case["m"], case["delta"], case["epsilon"], case["round"],
+                                  case["noise_var"], case["c"])
+    ctx.count("ctor_" + name)
+    ctx.count("ctor_delta_%s" % ("<1e-6" if delta < 1e-6 else ">1-1e-6" if delta > 1 - 1e-6 else "ordinary"))
+    rs = np.random.RandomState(case["seed"])
+    Y = rs.randint(-16, 17, size=(K, m)) / 8.0
+    X = np.arange(K, dtype=float)[:, None]
+    kw = dict(in_data=X, out_data=Y, epsilon=eps, delta=delta, noise_var=nv, conf_contraction=c)
+    if name not in ("EpsilonPAL", "Auer"):
+        kw["W"] = np.eye(m).tolist()
+    if name not in ("PaVeBa", "Auer"):
+        cls = stubs.ScriptedModelList if "Partial" in name else stubs.ScriptedModel
+        kw["model"] = cls(X, Y.copy(), np.array([np.eye(m) * 0.25] * K))
+    try:
+        a = stubs.build(name, **kw)
+        a.round = t
+        val = np.asarray(getattr(a, meth)(), dtype=float)
+    except Exception as e:  # every delta in (0,1), epsilon >= 0 is an admissible configuration
+        ctx.violation(f"ctor-crash:{name}:" + core.exc_key(e),
+                      f"{name}: constructor / schedule raised {type(e).__name__}: {e} for an admissible configuration",
+                      case)
+        ctx.case_done(case, True)
+        return
+    stored = float(a.delta)
+    if stored != delta:
+        if stored > delta:
+            ctx.violation(f"delta-altered-by-constructor:{name}",
+                          f"{name}: requested delta = {delta!r} but the object computes its schedules with delta' = "
+                          f"{stored!r} > delta: the confidence it delivers is 1 - delta', weaker than requested",
+                          case, kind="R", detail={"requested": delta, "stored": stored})
+            # the failing input in numbers: union-bound sum of the delta' schedule against the requested delta
+            faithful = False
+            try:  # the stub with the stored delta reproduces what the constructed object computes
+                faithful = close(float(val.ravel()[0]), real_scale(sched_key, K, m, stored, t, nv, c), 1e-12)
+            except Exception:
+                pass
+            if stored < 1 and faithful:
+                try:
+                    b = sum_bracket(ctx, sum_key, K, m, stored, 20000)
+                    if not (b["lower"] <= delta):
+                        ctx.violation(f"sum:{sum_key}",
+                                      f"{name}: union-bound sum over all designs, objectives and rounds of the schedule "
+                                      f"the constructed object uses (delta' = {stored!r}, contraction 1) is >= "
+                                      f"{b['lower']:.6g} > requested delta = {delta!r} (K={K}, m={m})", case, kind="R",
+                                      detail=b)
+                except Exception:
+                    ctx.count("ctor_sum_not_evaluated_info")
+        else:
+            ctx.violation(f"delta-altered-conservatively:{name}",
+                          f"{name}: requested delta = {delta!r} but the object stores delta' = {stored!r} < delta "
+                          f"(more conservative schedule; no property violation)", case, kind="F",
+                          detail={"requested": delta, "stored": stored})
+    if float(a.epsilon) != eps:
+        ctx.violation(f"epsilon-altered-by-constructor:{name}", f"{name}: requested epsilon = {eps!r}, stored "
+                      f"{float(a.epsilon)!r}", case, kind="F")
+    if int(a.design_space.cardinality) != K or int(a.m) != m:
+        ctx.violation(f"ctor-attributes:{name}", f"{name}: cardinality/m stored as "
+                      f"{a.design_space.cardinality}/{a.m}, expected {K}/{m}", case, kind="F")
+    real = float(val.ravel()[0]) if val.size else float("nan")
+    if val.size > 1 and not (np.all(val == val.ravel()[0]) or np.all(np.isnan(val))):
+        ctx.violation(f"ctor-schedule:{name}", f"{name}: schedule entries differ across designs/objectives", case, kind="F")
+    model = model_scale(ctx, sched_key, K, m, delta, t, nv, c)
+    if not close(real, model, RTOL_SCHED):
+        under = real < model or math.isnan(real)
+        ctx.violation(f"ctor-schedule:{name}",
+                      f"{name}: the constructed object's {meth}() = {real} at round {t}, but the schedule term at the "
+                      f"REQUESTED delta = {delta} is {model}" + (" (region under-sized)" if under else ""), case,
+                      kind="R" if (under and stored > delta) else "F", detail={"impl": real, "model": model,
+                                                                               "stored_delta": stored})
+    ctx.case_done(case, True)
+
+
+# ------------------------------------------------------------------------------------- history
+def run_history(ctx, case):
+    from vopy.models import EmpiricalMeanVarModel
+
+    K, m, i, n, pattern = case["K"], case["m"], case["design"], case["n"], case["pattern"]
+    ctx.count("history_" + pattern)
+    rs = np.random.RandomState(case["seed"])
+    data = rs.randint(-64, 65, size=(n, m)) / 16.0  # dyadic: sums are exact
+    model = EmpiricalMeanVarModel(1, m, case["noise_var"], K, track_variances=case["track_variances"])
+    if pattern == "one":
+        batches = [n]
+    elif pattern == "halves":
+        batches = [n // 2, n - n // 2]
+    elif pattern == "4096+singles":
+        batches = [4096] + [1] * min(n - 4096, 64)
+        batches.append(n - sum(batches))
+    elif pattern == "chunks":
+        batches = [1000] * (n // 1000) + [n % 1000]
+    else:
+        batches = [1] * n
+    try:
+        pos = 0
+        for b in batches:
+            if b <= 0:
+                continue
+            chunk = data[pos:pos + b]
+            pos += b
+            if b == 1:  # the shape evaluating() produces: one row per index
+                model.add_sample([i], chunk.reshape(1, m))
+            else:       # several samples for one index in one call (y.reshape(-1, output_dim))
+                model.add_sample([i], chunk[None, :, :])
+        for j in range(K):  # the other designs hold a short history
+            if j != i:
+                model.add_sample([j], data[:3][None, :, :])
+        model.update()
+        mu, _ = model.predict(np.array([[0.0, float(i)]]))
+        held = len(model.design_samples[i])
+        mean = np.asarray(model.means[i], dtype=float)
+    except Exception as e:
+        ctx.violation("history-crash:" + core.exc_key(e), f"EmpiricalMeanVarModel raised {type(e).__name__}: {e}", case)
+        ctx.case_done(case, True)
+        return
+    true_mean = data.sum(axis=0) / n
+    bad = []
+    if held != n:
+        bad.append(f"design {i} was given {n} samples but holds {held}")
+    if not np.all(np.abs(mean - true_mean) <= 1e-12) or not np.all(np.abs(np.asarray(mu).ravel() - true_mean) <= 1e-12):
+        bad.append(f"reported mean {mean.tolist()} is not the mean of all {n} samples {true_mean.tolist()}")
+    if bad:
+        ctx.violation("sampling-assumption:long-history",
+                      "EmpiricalMeanVarModel: " + "; ".join(bad) + " — the round-t radius of PaVeBa/Auer is valid for "
+                      "a mean of t samples", case, kind="R", detail={"given": n, "held": held, "batches": batches[:8]})
+    ctx.case_done(case, True)
 
 
 # ------------------------------------------------------------------------------------- monitor
@@ -591,10 +793,17 @@ def run_monitor(ctx, case):
 
     ever_active, skipped = set(), set()
     pdiffu_rounds = nonasc_rounds = 0
+    jump = int(case.get("jump", 0))
+    if jump:
+        ctx.count("monitor_jump_started")
     total, total_reentry = 0.0, 0.0
     rounds = u_rounds = 0
     problems = []  # (key, kind, what, detail) — first of each key is reported
     with stubs.dyadic_noise(case["seed"]):
+        if jump:  # t0 rounds without any decision: the real evaluating() t0 times, then round = t0
+            for _ in range(jump):
+                a.evaluating()
+            a.round = jump
         for _ in range(case["max_rounds"]):
             refreshed.clear()
             in_P_before = set(a.P)
@@ -729,5 +938,9 @@ def run_case(ctx, case):
         run_sum(ctx, case)
     elif kind == "monitor":
         run_monitor(ctx, case)
+    elif kind == "ctor":
+        run_ctor(ctx, case)
+    elif kind == "history":
+        run_history(ctx, case)
     else:
         raise ValueError(f"unknown case kind {kind}")
